@@ -3,5 +3,7 @@ GROUPS = [
  dict(name="nmt_reset", enforce="CONmtReset/CONmtReset_fresh", harness="nmt_reset.c", tus=["core/co_nmt.c", "core/co_dict.c"], nondet_static=True,
       replace=[x + "/" + x + "_ord" for x in _ORD] + ["CONmtSetMode", "CONodeFatalError"], unwind_all=3, reach=["post", "a", "b", "c"],
       props={"C20": "quick", "C18": dict(tier="quick", only=["G_ORD_LSSLOAD"]), "C10": dict(tier="quick", only=["Nmt.Tmr"]),
-             "C16": dict(tier="quick", only=["Sync."]), "C17": dict(tier="quick", only=["G_PARARESET", "G_ORD_PARA"]), "C01": "quick"}, timeout=300, object_bits=10),
+             "C16": dict(tier="quick", only=["Sync."]), "C17": dict(tier="quick", only=["G_PARARESET", "G_ORD_PARA"]), "C01": "quick",
+             # C05: an NMT reset is one of the histories after which a server must behave like a fresh one
+             "C05": dict(tier="quick", only=["SDO_IDLE", "G_ORD_SDOINIT"])}, timeout=300, object_bits=10),
 ]
